@@ -206,7 +206,7 @@ def extract(repo):
     return guard, edges, derive_feature, feats, unsupported
 
 
-def write_data(wd, guard, edges, derive_feature, feats):
+def write_data(wd, guard, edges, derive_feature, feats, probe_sets=()):
     def dnf(d):
         return "{" + ", ".join("{" + ", ".join(f'"{x}"' for x in sorted(c)) + "}" for c in sorted(d, key=sorted)) + "}"
     items = sorted(guard)
@@ -219,6 +219,7 @@ def write_data(wd, guard, edges, derive_feature, feats):
         f.write("Edges == {" + ",\n  ".join(f'<<"{a}", "{b}">>' for a, b in sorted(edges)) + "}\n")
         f.write("DeriveFeature == [d \\in {" + ", ".join(f'"{d}"' for d in sorted(derive_feature)) + "} |->\n    CASE " +
                 "\n      [] ".join(f'd = "{d}" -> "{derive_feature[d]}"' for d in sorted(derive_feature)) + "]\n")
+        f.write("ProbeSets == {" + ", ".join("{" + ", ".join(f'"{x}"' for x in sorted(ps)) + "}" for ps in sorted(probe_sets, key=sorted)) + "}\n")
         f.write("=============================================================================\n")
 
 
@@ -256,6 +257,22 @@ EXTRA_PROBES = [
 ]
 
 
+HELPER_ARITY = {"BinaryError": 0, "WrongVariantError": 0, "UnitError": 0, "FromStrError": 0, "TryFromReprError": 1, "TryIntoError": 1,
+                "TryUnwrapError": 1}
+
+
+def exposure_module(key):
+    """Which helper types the built facade REALLY exports (re-export globs included), without a failing compilation: a glob
+    import of `derive_more::*` inside a function body takes precedence over the same-named fallback types the enclosing module
+    imports; `type_name` tells which one a name resolved to."""
+    fb = " ".join(f"pub struct {h}{'<T = ()>(pub T)' if a else ''};" for h, a in HELPER_ARITY.items())
+    rows = ", ".join(f'::std::format!("{h}:{{}}", ::core::any::type_name::<{h}{"<u8>" if a else ""}>().starts_with("derive_more::"))'
+                     for h, a in HELPER_ARITY.items())
+    return (f"use super::*;\npub mod fb {{ {fb} }}\nmod q {{\n    use super::fb::*;\n    pub fn rows() -> ::std::vec::Vec<::std::string::String> {{\n"
+            f"        #[allow(unused_imports)] use ::derive_more::*;\n        ::std::vec![{rows}]\n    }}\n}}\n"
+            f"pub fn run() {{ report({json.dumps(key)}, &q::rows()); }}")
+
+
 def probe_groups(derive_feature):
     """the code-path table of C15 and the generic declarations of C01, grouped by the exact set of features their
     derives need: group -> [(key, module)]"""
@@ -286,6 +303,9 @@ def probe_groups(derive_feature):
         key = f"generic:{fam}:{n}"
         mod = f"use super::*;\npub mod m {{\n{inner}{decl}\n}}\npub fn run() {{ report({json.dumps(key)}, &[]); }}"
         groups.setdefault(fs, []).append((key, mod))
+    for fs in list(groups):
+        key = "exposure:" + "+".join(sorted(fs))
+        groups[fs].append((key, exposure_module(key)))
     return groups
 
 
@@ -305,7 +325,8 @@ def run(chk, tier, seed, replay):
     os.makedirs(wd, exist_ok=True)
     for f in ("Features.tla", "MC_Features.tla", "MC_Features.cfg"):
         shutil.copy(os.path.join(vlib.SPEC, f), wd)
-    write_data(wd, guard, edges, derive_feature, feats)
+    groups = probe_groups(derive_feature)
+    write_data(wd, guard, edges, derive_feature, feats, probe_sets=list(groups))
     r = vlib.run_tlc("MC_Features", "MC_Features", workers=4, timeout=1800, cwd=wd, xmx="6g")
     chk.add_tlc(r, "extracted gating graph")
     chk.notes["graph"] = {"items": len(guard), "edges": len(edges), "features": len(feats), "cfg_not_modelled": unsupported[:20]}
@@ -336,7 +357,7 @@ def run(chk, tier, seed, replay):
         want = json.load(open(replay))["case"]
         configs = [c for c in configs if list(c[0]) == want.get("features") and c[1] == want.get("std") and c[2] == want.get("step")]
     # ---------------- probes: every code path / generic declaration under exactly the features its derives need
-    groups = probe_groups(derive_feature)
+    doc_helpers = {frozenset(fs): set(hs) for fs, hs in info.get("helpers", [])}
     pconfigs = [(fs, std) for fs in sorted(groups, key=sorted) for std in (False, True)]
     if replay:
         want = json.load(open(replay))["case"]
@@ -379,6 +400,17 @@ def run(chk, tier, seed, replay):
             chk.cov["distinct_nontrivial"] += 1
             name = f"probe:{'+'.join(sorted(fs))}:{'std' if std else 'no_std'}:{key}"
             case = {"features": sorted(fs), "std": std, "step": "probe", "key": key}
+            if key.startswith("exposure:"):
+                # the helper types this build exports against the owner table of Features.tla (DocHelpers), not against `full`
+                got = {r.split(":")[0] for r in ((obs.get(key) or {}).get("rows") or []) if r.endswith(":true")}
+                want_h = doc_helpers.get(frozenset(fs))
+                if key in failed or want_h is None or obs.get(key) is None:
+                    raise vlib.ToolError(f"exposure probe {name}: {failed.get(key) or 'no expectation / observation'}")
+                if got != want_h:
+                    chk.deviation(name, f"with features {sorted(fs)} {'+ std' if std else '(no std)'} the facade exports the helper types "
+                                  f"{sorted(got)}, the enabled features own {sorted(want_h)}", case=case, expected=sorted(want_h),
+                                  observed=sorted(got), tags={"kind": "helper_exposure", "features": sorted(fs)})
+                continue
             if key in ref_failed:
                 continue        # not a supported input even under `full` (C01's subject)
             if key in failed:
